@@ -92,6 +92,36 @@ theorem mmap_dispatch (off min max len : Nat) (mm : Mmap) :
       · simp only [Prod.mk.injEq, Option.some.injEq] at h; rw [← h.2]; show writeVia typeHolder ≠ _; decide
       · simp at h
 
+/-- Clause "writable through the provided writer" — for every write, not only the first: whatever `Space` `Acquire`
+    returns (mapping or reserve), any number of successive `Write`s through it goes through, and each leaves the region
+    in the protection it had when it was handed out (mapping: RWX, never sealed; reserve: R-X restored by
+    memory.WriteTo, which re-opens it on the next call). -/
+theorem write_repeatable (off min max len : Nat) (mm : Mmap) (o : Nat) (sp : Space)
+    (h : acquire mm off min max len = (o, some sp)) (n : Nat) :
+    writeN sp.typ (initPerm sp.typ) n = some (initPerm sp.typ) := by
+  have ht : sp.typ = typeMMap ∨ sp.typ = typeHolder := by
+    cases mm with
+    | fresh a => simp only [acquire, Prod.mk.injEq, Option.some.injEq] at h; rw [← h.2]; exact Or.inl rfl
+    | fail =>
+      simp only [acquire] at h
+      split at h
+      · simp only [Prod.mk.injEq, Option.some.injEq] at h; rw [← h.2]; exact Or.inr rfl
+      · simp at h
+  rcases ht with e | e
+  · rw [e]; exact writeN_mmap n
+  · rw [e, writeN_holder n]; cases n <;> rfl
+
+example : writeN typeMMap (initPerm typeMMap) 4 = some .rwx ∧ writeN typeHolder (initPerm typeHolder) 4 = some .rx ∧
+    writeOnce typeMMap .rx = none := by decide
+
+/-- Concurrent writers on the reserve path: neighbouring regions share a code page, and every writer runs
+    lock / mprotect RWX / copy / mprotect R-X / unlock (memory.WriteTo).  For EVERY schedule of any number of writers no
+    copy ever hits a page that is not writable — because the protection is restored before the lock is released. -/
+theorem conc_writers_never_fault (n : Nat) (σ : List Nat) : (wrun (winit n) σ).faulted = false :=
+  (winv_run σ (winv_init n)).nofault
+
+example : (wrun (winit 2) [0, 1, 0, 1, 0, 0, 1, 0, 1, 1, 1, 1, 1]).pcs = [.done, .done] := by decide
+
 /-- The slice handed to the writer is the returned region: it starts at the returned address and its length and
     capacity are the requested length (so a write through it cannot reach a neighbour). -/
 theorem slice_is_region (p n l mi ma : Nat) :
